@@ -134,6 +134,8 @@ def monitor(mode, p):
         if x["kind"] == "err":
             if x["impl"].get("passthrough") != "true":
                 bad.append("%s: the error that came out is not the error object the %s produced" % (name, "serializer" if mode == "ser" else "deserializer"))
+        if x["impl"].get("nhr_same") != "true":
+            bad.append("%s behaves differently from T when the %s reports is_human_readable() == false" % (name, "serializer" if mode == "ser" else "deserializer"))
         if mode != "de":
             continue
         if x["kind"] == "ok":
